@@ -155,15 +155,160 @@ def build_files(P, R):
     return files, links
 
 
+def judge(ctx, case, b, P, links, files, recs, stage):
+    """Compare every generated link of the project with the resolved doctrees; ``recs`` are the myst.xref_missing records of this stage."""
+    from docutils import nodes
+
+    trees = {}
+    for D in P["docs"]:
+        trees[D["name"]] = b.resolved(D["name"]) if stage == "full" else b._trees[D["name"]]
+    secs = {}
+    for D in P["docs"]:
+        secs[D["name"]] = [s for s in b.doctree(D["name"]).findall(nodes.section)]
+    used = set()
+    pre = "" if stage == "full" else stage + ":"
+    for D in P["docs"]:
+        tree = trees[D["name"]]
+        paras = {}
+        for p in tree.findall(nodes.paragraph):
+            m = re.match(r"(LK\d+x\d+) ", p.astext())
+            if m:
+                paras[m.group(1)] = p
+        for lk in links[D["name"]]:
+            p = paras.get(lk["marker"])
+            detail = {"stage": stage, "source_doc": D["name"], "link": lk, "paragraph": p.pformat()[:1200] if p is not None else None, "project": {"docs": [d["name"] for d in P["docs"]], "extra": P["extra"]}, "log": b.norm_warnings()[-1500:],
+                      "mutation": case.get("mutation")}
+            if p is None:
+                ctx.violation(pre + "link:paragraph-lost", f"paragraph {lk['marker']} not found in the resolved doctree", case, detail)
+                continue
+            refs = [n for n in p.findall(lambda n: isinstance(n, nodes.reference) or n.tagname in ("download_reference", "pending_xref"))]
+            k = lk["kind"]
+            ctx.count("links_checked")
+            ctx.count("links:" + k)
+            if stage != "full":
+                ctx.count("links_checked_after_rebuild")
+            if k in ("doc", "slug", "label", "label_p"):
+                if len(refs) != 1 or not isinstance(refs[0], nodes.reference):
+                    ctx.violation(f"{pre}resolve:{k}:no-reference", f"{lk['md']} produced {[r.tagname for r in refs]} instead of one reference", case, detail)
+                    continue
+                r = refs[0]
+                page = rel(D["name"] + ".html", lk["to"] + ".html")
+                if k == "doc":
+                    exp_uri, exp_id = page, None
+                elif k in ("slug", "label"):
+                    tsecs = secs[lk["to"]]
+                    sec = tsecs[lk["head"] + 1] if len(tsecs) > lk["head"] + 1 else None
+                    if sec is None:
+                        ctx.count("target_section_not_located")
+                        continue
+                    ids = sec["ids"]
+                    exp_id = ids
+                    exp_uri = page
+                else:
+                    # ids of the labelled paragraph itself, read from the target document's doctree
+                    tp = next((q for q in b.doctree(lk["to"]).findall(nodes.paragraph) if q.astext().startswith("labelled paragraph of")), None)
+                    exp_id, exp_uri = (list(tp["ids"]) if tp is not None else [nodes.make_id(lk["label"])]), page
+                got_uri, got_id = r.get("refuri"), r.get("refid")
+                if lk.get("self"):
+                    ok = (got_id in exp_id) if got_id else (got_uri and got_uri.startswith("#") and got_uri[1:] in exp_id)
+                    if not ok:
+                        ctx.violation(pre + "resolve:self-anchor", f"{lk['md']} has refid={got_id!r} refuri={got_uri!r}; the heading's ids are {exp_id}", case, detail)
+                else:
+                    if got_uri is None:
+                        ctx.violation(f"{pre}resolve:{k}:no-uri", f"{lk['md']} has no refuri (refid={got_id!r})", case, detail)
+                        continue
+                    upage, _, ufrag = got_uri.partition("#")
+                    if upage != exp_uri:
+                        ctx.violation(f"{pre}resolve:{k}:wrong-page", f"{lk['md']} in {D['name']} points to {got_uri!r}; the target page is {exp_uri!r} relative to the source page", case, detail)
+                    elif exp_id is None and ufrag:
+                        ctx.violation(f"{pre}resolve:{k}:unexpected-fragment", f"{lk['md']} points to {got_uri!r}", case, detail)
+                    elif exp_id is not None and ufrag not in exp_id:
+                        ctx.violation(f"{pre}resolve:{k}:wrong-node", f"{lk['md']} points to fragment {ufrag!r}; the target node's ids are {exp_id}", case, detail)
+                    else:
+                        ctx.count("uris_correct")
+                # text
+                if lk["explicit"]:
+                    if not any(isinstance(c, nodes.emphasis) for c in r.findall(nodes.emphasis)) or "txt" not in r.astext():
+                        ctx.violation(f"{pre}text:{k}:explicit-markup-lost", f"explicit text of {lk['md']} rendered as {r.astext()!r} without its nested markup", case, detail)
+                elif r.astext() != lk["text"]:
+                    ctx.violation(f"{pre}text:{k}:implicit", f"{lk['md']} shows {r.astext()!r}, the target's title is {lk['text']!r}", case, detail)
+            elif k == "download":
+                dl = [n for n in refs if n.tagname == "download_reference"]
+                if len(dl) != 1:
+                    ctx.violation(pre + "download:not-a-download", f"{lk['md']} produced {[r.tagname for r in refs]}", case, detail)
+                    continue
+                n = dl[0]
+                fn = n.get("filename")
+                if not fn or not os.path.exists(os.path.join(b.out, "_downloads", fn)):
+                    ctx.violation(pre + "download:file-not-copied", f"{lk['md']}: download file {fn!r} was not copied (reftarget {n.get('reftarget')!r})", case, detail)
+                elif open(os.path.join(b.out, "_downloads", fn)).read() != "payload of " + lk["file"] + "\n":
+                    ctx.violation(pre + "download:wrong-file", f"{lk['md']}: downloaded file is not {lk['file']}", case, detail)
+                else:
+                    ctx.count("downloads_correct")
+                if lk["explicit"] and "txt" not in n.astext():
+                    ctx.violation(pre + "text:download:explicit-lost", f"explicit text of {lk['md']} lost: {n.astext()!r}", case, detail)
+            elif k == "missing":
+                if lk.get("by_location"):
+                    # a link whose target was removed by the mutation: identified by its position
+                    hits = [i for i, rr in enumerate(recs) if i not in used and re.search(re.escape(D["name"] + ".md") + ":" + str(lk["line"]) + "$", str(rr["location"] or ""))]
+                else:
+                    hits = [i for i, rr in enumerate(recs) if lk["needle"] in rr["msg"] and i not in used]
+                if len(hits) != 1:
+                    ctx.violation(pre + "missing:warning-count", f"{len(hits)} myst.xref_missing warnings name {lk.get('needle') or lk['md']!r} (expected exactly one)", case, detail)
+                else:
+                    used.add(hits[0])
+                    loc = recs[hits[0]]["location"] or ""
+                    m = re.search(r":(\d+)$", str(loc))
+                    if not (D["name"] + ".md") in str(loc) or (m and int(m.group(1)) != lk["line"]):
+                        ctx.violation(pre + "missing:warning-location", f"the warning for {lk['md']} is located at {loc!r}; the link is on line {lk['line']} of {D['name']}.md", case, detail)
+                    else:
+                        ctx.count("missing_warned_once_at_line")
+                if lk["explicit"] and ("txt" not in p.astext() or not list(p.findall(nodes.emphasis))):
+                    ctx.violation(pre + "missing:text-lost", f"the text of the unresolvable link {lk['md']} was not rendered: {p.astext()!r}", case, detail)
+    extra = [rr for i, rr in enumerate(recs) if i not in used]
+    if extra:
+        ctx.violation(pre + "warning:spurious-xref-missing", f"{len(extra)} myst.xref_missing warnings that no generated missing link explains: {extra[0]['msg'][:120]} at {extra[0]['location']}", case,
+                      {"stage": stage, "mutation": case.get("mutation"), "log": b.norm_warnings()[-2000:], "files": {k: v[:600] for k, v in files.items() if k.endswith('.md')}})
+
+
+def mutate_project(P, files, links, mutation, ti):
+    """-> (changed files, P2, links2): the project after removing the anchors of / deleting document ti; links that pointed there become 'missing'."""
+    import copy
+
+    T = P["docs"][ti]
+    P2 = copy.deepcopy(P)
+    links2 = copy.deepcopy(links)
+    changes = {}
+    if mutation == "strip-anchors":
+        out = []
+        for l in files[T["name"] + ".md"].split("\n"):
+            if l.startswith("## "):
+                l = "**" + l[3:] + "**"
+            elif l == f"({T['label_h']})=":
+                l = "label removed"
+            out.append(l)
+        changes[T["name"] + ".md"] = "\n".join(out)
+        gone = ("slug", "label")
+    else:  # delete-doc
+        changes[T["name"] + ".md"] = None
+        changes["index.md"] = "\n".join(["# Index", "", "```{toctree}"] + [d["name"] for d in P["docs"] if d is not T] + ["```", ""])
+        P2["docs"] = [d for d in P2["docs"] if d["name"] != T["name"]]
+        links2.pop(T["name"])
+        gone = ("slug", "label", "label_p", "doc")
+    for dn, ls in links2.items():
+        for lk in ls:
+            if lk.get("to") == T["name"] and lk["kind"] in gone + (("missing",) if mutation == "delete-doc" else ()):
+                lk.update(kind="missing", by_location=True, was=lk["kind"])
+    return changes, P2, links2
+
+
 def eval_case(ctx, case):
     import random
-
-    from docutils import nodes
 
     R = random.Random(case["seed"])
     P = make_project(R)
     files, links = build_files(P, R)
-    b = drive.SphinxBuild(files, conf={"myst_heading_anchors": P["anchors"]}, builder="html")
+    b = drive.SphinxBuild(dict(files), conf={"myst_heading_anchors": P["anchors"]}, builder="html", parallel=case.get("parallel", 0))
     try:
         try:
             b.build()
@@ -172,109 +317,30 @@ def eval_case(ctx, case):
             ctx.violation(f"build-raises:{sig['type']}:{sig['myst'] or sig['inner']}", f"the build raised {sig['type']}: {sig['msg'][:200]}", case, {**sig, "files": {k: v[:400] for k, v in files.items()}})
             return False
         ctx.count("projects_built")
+        if case.get("parallel"):
+            ctx.count("projects_built_parallel")
         build_records = list(b.records)  # resolving doctrees again below would log the same warnings a second time
-        trees = {}
-        for D in P["docs"]:
-            trees[D["name"]] = b.resolved(D["name"])
-        secs = {}
-        for D in P["docs"]:
-            secs[D["name"]] = [s for s in b.doctree(D["name"]).findall(nodes.section)]
         recs = [r for r in build_records if r["type"] == "myst" and r["subtype"] == "xref_missing"]
-        used = set()
-        for D in P["docs"]:
-            tree = trees[D["name"]]
-            paras = {}
-            for p in tree.findall(nodes.paragraph):
-                m = re.match(r"(LK\d+x\d+) ", p.astext())
-                if m:
-                    paras[m.group(1)] = p
-            for lk in links[D["name"]]:
-                p = paras.get(lk["marker"])
-                detail = {"source_doc": D["name"], "link": lk, "paragraph": p.pformat()[:1200] if p is not None else None, "project": {"docs": [d["name"] for d in P["docs"]], "extra": P["extra"]}, "log": b.norm_warnings()[-1500:]}
-                if p is None:
-                    ctx.violation("link:paragraph-lost", f"paragraph {lk['marker']} not found in the resolved doctree", case, detail)
-                    continue
-                refs = [n for n in p.findall(lambda n: isinstance(n, nodes.reference) or n.tagname in ("download_reference", "pending_xref"))]
-                k = lk["kind"]
-                ctx.count("links_checked")
-                ctx.count("links:" + k)
-                if k in ("doc", "slug", "label", "label_p"):
-                    if len(refs) != 1 or not isinstance(refs[0], nodes.reference):
-                        ctx.violation(f"resolve:{k}:no-reference", f"{lk['md']} produced {[r.tagname for r in refs]} instead of one reference", case, detail)
-                        continue
-                    r = refs[0]
-                    page = rel(D["name"] + ".html", lk["to"] + ".html")
-                    if k == "doc":
-                        exp_uri, exp_id = page, None
-                    elif k in ("slug", "label"):
-                        tsecs = secs[lk["to"]]
-                        sec = tsecs[lk["head"] + 1] if len(tsecs) > lk["head"] + 1 else None
-                        if sec is None:
-                            ctx.count("target_section_not_located")
-                            continue
-                        ids = sec["ids"]
-                        exp_id = ids
-                        exp_uri = page
-                    else:
-                        # ids of the labelled paragraph itself, read from the target document's doctree
-                        tp = next((q for q in b.doctree(lk["to"]).findall(nodes.paragraph) if q.astext().startswith("labelled paragraph of")), None)
-                        exp_id, exp_uri = (list(tp["ids"]) if tp is not None else [nodes.make_id(lk["label"])]), page
-                    got_uri, got_id = r.get("refuri"), r.get("refid")
-                    if lk.get("self"):
-                        ok = (got_id in exp_id) if got_id else (got_uri and got_uri.startswith("#") and got_uri[1:] in exp_id)
-                        if not ok:
-                            ctx.violation("resolve:self-anchor", f"{lk['md']} has refid={got_id!r} refuri={got_uri!r}; the heading's ids are {exp_id}", case, detail)
-                    else:
-                        if got_uri is None:
-                            ctx.violation(f"resolve:{k}:no-uri", f"{lk['md']} has no refuri (refid={got_id!r})", case, detail)
-                            continue
-                        upage, _, ufrag = got_uri.partition("#")
-                        if upage != exp_uri:
-                            ctx.violation(f"resolve:{k}:wrong-page", f"{lk['md']} in {D['name']} points to {got_uri!r}; the target page is {exp_uri!r} relative to the source page", case, detail)
-                        elif exp_id is None and ufrag:
-                            ctx.violation(f"resolve:{k}:unexpected-fragment", f"{lk['md']} points to {got_uri!r}", case, detail)
-                        elif exp_id is not None and ufrag not in exp_id:
-                            ctx.violation(f"resolve:{k}:wrong-node", f"{lk['md']} points to fragment {ufrag!r}; the target node's ids are {exp_id}", case, detail)
-                        else:
-                            ctx.count("uris_correct")
-                    # text
-                    if lk["explicit"]:
-                        if not any(isinstance(c, nodes.emphasis) for c in r.findall(nodes.emphasis)) or "txt" not in r.astext():
-                            ctx.violation(f"text:{k}:explicit-markup-lost", f"explicit text of {lk['md']} rendered as {r.astext()!r} without its nested markup", case, detail)
-                    elif r.astext() != lk["text"]:
-                        ctx.violation(f"text:{k}:implicit", f"{lk['md']} shows {r.astext()!r}, the target's title is {lk['text']!r}", case, detail)
-                elif k == "download":
-                    dl = [n for n in refs if n.tagname == "download_reference"]
-                    if len(dl) != 1:
-                        ctx.violation("download:not-a-download", f"{lk['md']} produced {[r.tagname for r in refs]}", case, detail)
-                        continue
-                    n = dl[0]
-                    fn = n.get("filename")
-                    if not fn or not os.path.exists(os.path.join(b.out, "_downloads", fn)):
-                        ctx.violation("download:file-not-copied", f"{lk['md']}: download file {fn!r} was not copied (reftarget {n.get('reftarget')!r})", case, detail)
-                    elif open(os.path.join(b.out, "_downloads", fn)).read() != "payload of " + lk["file"] + "\n":
-                        ctx.violation("download:wrong-file", f"{lk['md']}: downloaded file is not {lk['file']}", case, detail)
-                    else:
-                        ctx.count("downloads_correct")
-                    if lk["explicit"] and "txt" not in n.astext():
-                        ctx.violation("text:download:explicit-lost", f"explicit text of {lk['md']} lost: {n.astext()!r}", case, detail)
-                elif k == "missing":
-                    hits = [i for i, rr in enumerate(recs) if lk["needle"] in rr["msg"] and i not in used]
-                    if len(hits) != 1:
-                        ctx.violation("missing:warning-count", f"{len(hits)} myst.xref_missing warnings name {lk['needle']!r} (expected exactly one)", case, detail)
-                    else:
-                        used.add(hits[0])
-                        loc = recs[hits[0]]["location"] or ""
-                        m = re.search(r":(\d+)$", str(loc))
-                        if not (D["name"] + ".md") in str(loc) or (m and int(m.group(1)) != lk["line"]):
-                            ctx.violation("missing:warning-location", f"the warning for {lk['md']} is located at {loc!r}; the link is on line {lk['line']} of {D['name']}.md", case, detail)
-                        else:
-                            ctx.count("missing_warned_once_at_line")
-                    if "txt" not in p.astext() or not list(p.findall(nodes.emphasis)):
-                        ctx.violation("missing:text-lost", f"the text of the unresolvable link {lk['md']} was not rendered: {p.astext()!r}", case, detail)
-        extra = [rr for i, rr in enumerate(recs) if i not in used]
-        if extra:
-            ctx.violation("warning:spurious-xref-missing", f"{len(extra)} myst.xref_missing warnings that no generated missing link explains: {extra[0]['msg'][:120]}", case, {"log": b.norm_warnings()[-2000:], "files": {k: v[:600] for k, v in files.items() if k.endswith('.md')}})
+        judge(ctx, case, b, P, links, files, recs, "full")
+        mutation = case.get("mutation")
+        if mutation:
+            ti = case["target"] % len(P["docs"])
+            changes, P2, links2 = mutate_project(P, files, links, mutation, ti)
+            steps = [("rebuild", changes, P2, links2)]
+            if case.get("restore"):
+                steps.append(("restored", {k: files[k] for k in changes}, P, links))
+            for stage, ch, Px, lx in steps:
+                try:
+                    b.rebuild(ch)
+                    b._trees = b.resolve_all([d["name"] for d in Px["docs"]])
+                except Exception as e:  # noqa: BLE001
+                    sig = core.exc_signature(e)
+                    ctx.violation(f"{stage}:build-raises:{sig['type']}:{sig['myst'] or sig['inner']}", f"the incremental build after {mutation} raised {sig['type']}: {sig['msg'][:200]}", case, {**sig, "changes": {k: (v or "")[:400] for k, v in ch.items()}})
+                    return False
+                ctx.count("incremental_builds")
+                ctx.count("incremental:" + mutation + ":" + stage)
+                recs2 = [r for r in b.records if r["type"] == "myst" and r["subtype"] == "xref_missing"]
+                judge(ctx, case, b, Px, lx, {**files, **{k: v for k, v in ch.items() if v is not None}}, recs2, stage)
         return len({posixpath.dirname(d["name"]) for d in P["docs"]}) >= 2
     finally:
         b.close()
@@ -284,9 +350,9 @@ def run_shard(ctx):
     R = ctx.rng
     n = 8 if ctx.tier == "quick" else 400
     for i in range(n):
-        case = {"kind": "project", "seed": R.getrandbits(48)}
+        case = {"kind": "project", "seed": R.getrandbits(48), "parallel": R.choice([0, 0, 2, 4]), "mutation": R.choice([None, "strip-anchors", "strip-anchors", "delete-doc"]), "target": R.randrange(64), "restore": R.random() < 0.5}
         nt = eval_case(ctx, case)
-        ctx.case(("project", case["seed"]), bool(nt))
+        ctx.case(("project", case["seed"], case["parallel"], case["mutation"]), bool(nt))
         if i == 0:
             import random
 
@@ -297,7 +363,7 @@ def run_shard(ctx):
 
 def finalize(m, tier):
     c = m["counters"]
-    for k, lo in (("projects_built", 40), ("links_checked", 4000), ("uris_correct", 1500), ("downloads_correct", 300), ("missing_warned_once_at_line", 500)):
+    for k, lo in (("projects_built", 40), ("links_checked", 4000), ("uris_correct", 1500), ("downloads_correct", 300), ("missing_warned_once_at_line", 500), ("projects_built_parallel", 10), ("incremental_builds", 20), ("links_checked_after_rebuild", 1000)):
         if c.get(k, 0) < lo:
             m["inconclusive"].append(f"monitor observed only {c.get(k, 0)} '{k}' events (< {lo})")
     for k in ("doc", "slug", "label", "label_p", "download", "missing"):
